@@ -589,6 +589,62 @@ def nn_and_editable_order_probe(ctx):
                      {"after_forward": [n for n, _ in after_fwd], "after_backward": [n for n, _ in after_bwd]}, [n for n, _ in before])
 
 
+def reassigned_before_recorded_backward_probe(ctx):
+    """history: functional call; the caller assigns a NEW tensor to the module's attribute; backward pass through the earlier result.
+    After the backward pass the module holds what it held before it - the newly assigned tensor - whether or not the backward pass is
+    recorded (finding F45: a graph-recording backward substitutes the saved tensors and 'restores' the ones the wrapper remembers
+    from the forward call, overwriting the caller's assignment)"""
+    import xitorch as xt
+    from xitorch.integrate import solve_ivp
+    from xitorch.optimize import rootfinder
+    DT = torch.float64
+
+    class NN(torch.nn.Module):
+        def __init__(self, a):
+            super().__init__()
+            self.a = torch.nn.Parameter(a)
+
+        def rhs(self, t, y):
+            return -self.a * y
+
+        def resid(self, y):
+            return y * y * self.a + y - 1.0
+
+    class ED(xt.EditableModule):
+        def __init__(self, a):
+            self.a = a
+
+        def rhs(self, t, y):
+            return -self.a * y
+
+        def resid(self, y):
+            return y * y * self.a + y - 1.0
+
+        def getparamnames(self, methodname, prefix=""):
+            return [prefix + "a"]
+    ts = torch.linspace(0, 1, 6, dtype=DT)
+    for kind in ("nn.Module", "EditableModule"):
+        for fnl in ("solve_ivp", "rootfinder"):
+            for record in (False, True):
+                a0 = torch.tensor([0.7, 1.3], dtype=DT)
+                mod = NN(a0.clone()) if kind == "nn.Module" else ED(a0.clone().requires_grad_())
+                old = mod.a
+                with warnings.catch_warnings():
+                    warnings.simplefilter("ignore")
+                    if fnl == "solve_ivp":
+                        out = solve_ivp(mod.rhs, ts, torch.tensor([1.0, 2.0], dtype=DT), method="rk4")[-1]
+                    else:
+                        out = rootfinder(mod.resid, torch.tensor([0.5, 0.5], dtype=DT))
+                    new = torch.nn.Parameter(a0 * 2) if kind == "nn.Module" else (a0 * 2).requires_grad_()
+                    mod.a = new
+                    torch.autograd.grad(out.sum(), old, create_graph=record, allow_unused=True)
+                ctx.count(("reassigned-before-backward", kind, fnl, record), nontrivial=True)
+                if mod.a is not new:
+                    ctx.fail("oracle", "history:attribute-reassigned-before-backward",
+                             {"object": kind, "functional": fnl, "backward_recorded": record, "history": "call; module.a = new tensor; backward through the earlier result"},
+                             {"module_holds_new": False, "module_holds_forward_time_tensor": mod.a is old}, "the tensor the caller assigned before the backward pass")
+
+
 def check(ctx):
     cases, meta = [], []
     program_cases(ctx, cases, meta)
@@ -603,6 +659,7 @@ def check(ctx):
     debug_flag_probe(ctx)
     debug_mode_crash_probe(ctx)
     nn_and_editable_order_probe(ctx)
+    reassigned_before_recorded_backward_probe(ctx)
 
 
 def search(ctx):
